@@ -367,6 +367,7 @@ const preludeDecls = `
 (declare-fun u64dec (String) Int)
 (declare-fun fill32 (Int) String)
 (declare-fun zeros (Int) String)
+(declare-fun getraw (OptS) String)
 `
 
 const preludeAxioms = `
@@ -375,6 +376,7 @@ const preludeAxioms = `
 (assert (forall ((s String)) (! (and (<= 0 (u64dec s)) (< (u64dec s) 18446744073709551616)) :pattern ((u64dec s)))))
 (assert (forall ((n Int)) (! (= (str.len (fill32 n)) 32) :pattern ((fill32 n)))))
 (assert (forall ((n Int)) (! (= (str.len (zeros n)) (ite (>= n 0) n 0)) :pattern ((zeros n)))))
+(assert (forall ((o OptS)) (! (= (getraw o) (ite ((_ is some) o) (someval o) "")) :pattern ((getraw o)))))
 `
 
 // ---------------------------------------------------------------------------
@@ -457,16 +459,28 @@ func Solve(name string, script string, timeoutS int, wantModel bool) SolveResult
 			cmd.Run()
 			secs := time.Since(start).Seconds()
 			txt := out.String()
-			first := strings.TrimSpace(strings.SplitN(txt, "\n", 2)[0])
+			first := ""
+			rest := txt
+			for _, ln := range strings.Split(txt, "\n") {
+				t := strings.TrimSpace(ln)
+				rest = rest[len(ln):]
+				rest = strings.TrimPrefix(rest, "\n")
+				if t == "sat" || t == "unsat" || t == "unknown" || t == "timeout" {
+					first = t
+					break
+				}
+				if t != "" && !strings.HasPrefix(t, "WARNING") {
+					first = t
+					break
+				}
+			}
 			r := SolveResult{Solver: sp.name, Secs: secs, Raw: txt}
 			switch first {
 			case "unsat":
 				r.Status = "unsat"
 			case "sat":
 				r.Status = "sat"
-				if i := strings.Index(txt, "\n"); i >= 0 {
-					r.Model = txt[i+1:]
-				}
+				r.Model = rest
 			case "unknown":
 				r.Status = "unknown"
 			case "timeout":
